@@ -177,6 +177,13 @@ func rewriteFile(path string) (bool, []byte, []string, error) {
 							needVsync, changed = true, true
 							notes = append(notes, "time.Sleep -> vsync.Sleep")
 						}
+						if id.Name == "time" && sel.Sel.Name == "Now" && strings.Contains(path, "/internal/server/") {
+							id.Name = "vsync"
+							needVsync, changed = true, true
+							if !strings.Contains(strings.Join(notes, ";"), "time.Now -> vsync.Now") {
+								notes = append(notes, "time.Now -> vsync.Now")
+							}
+						}
 						if id.Name == "time" && sel.Sel.Name == "AfterFunc" {
 							id.Name = "vsync"
 							needVsync, changed = true, true
